@@ -348,6 +348,9 @@ func historyCall(r *rng.Rand) string {
 }
 
 func (c07) RunCase(c *core.Ctx) {
+	if c.Case%97 == 23 && !w10(c, "C07") {
+		return
+	}
 	// the collector is off only during the episode (it would empty the pools); between cases it bounds the memory
 	debug.SetGCPercent(-1)
 	defer debug.SetGCPercent(100)
